@@ -115,9 +115,10 @@ def run(command, timeout=30, withexitstatus=False, events=None,
             index = child.expect(patterns)
             if isinstance(child.after, child.allowed_string_types):
                 child_result_list.append(child.before + child.after)
-            else:
-                # child.after may have been a TIMEOUT or EOF,
-                # which we don't want appended to the list.
+            elif child.after is not TIMEOUT:
+                # child.after is EOF, which we don't want appended to the list.
+                # (A TIMEOUT event consumes nothing: child.before is still
+                # pending and will be returned again by a later expect().)
                 child_result_list.append(child.before)
             if isinstance(responses[index], child.allowed_string_types):
                 child.send(responses[index])
@@ -128,6 +129,9 @@ def run(command, timeout=30, withexitstatus=False, events=None,
                 if isinstance(callback_result, child.allowed_string_types):
                     child.send(callback_result)
                 elif callback_result:
+                    if child.after is TIMEOUT:
+                        # stopping here: the pending text is the rest of the output
+                        child_result_list.append(child.before)
                     break
             else:
                 raise TypeError("parameter `event' at index {index} must be "
